@@ -156,7 +156,13 @@ def check(case):
     return PASS(nontrivial, labels)
 
 
+def strat_long(tier):
+    """Few but large cases: long traces, wide windows, many variables."""
+    return dt_cases(_profile(tier, max_depth=3, max_bound=20, nvars=5), max_n=48, min_n=16)
+
+
 LANES = [
+    Lane('long', strat_long, check, 300, 5000, std_candidates),
     Lane('main', strat_main, check, 3000, 60000, std_candidates),
     Lane('short', strat_short, check, 1200, 20000, std_candidates),
     Lane('deep', strat_deep, check, 800, 20000, std_candidates),
